@@ -1,3 +1,4 @@
+mod c04;
 mod c07;
 mod c08;
 mod c10;
@@ -8,6 +9,7 @@ mod c20;
 mod core;
 mod gchecks;
 mod gprog;
+mod grammar;
 mod lspchecks;
 mod lspdrv;
 mod reflex;
@@ -26,6 +28,7 @@ static C02: synchecks::SynCheck = synchecks::SynCheck { mode: synchecks::Mode::T
 static C03: swchecks::SwCheck = swchecks::SwCheck { mode: swchecks::SMode::Totality };
 static C06: swchecks::SwCheck = swchecks::SwCheck { mode: swchecks::SMode::Coherence };
 static C17: swchecks::SwCheck = swchecks::SwCheck { mode: swchecks::SMode::Ranges };
+static C04: c04::C04 = c04::C04;
 static C05: gchecks::GCheck = gchecks::GCheck { mode: gchecks::GMode::Resolution };
 static C13: gchecks::GCheck = gchecks::GCheck { mode: gchecks::GMode::Diagnostics };
 static C18: gchecks::GCheck = gchecks::GCheck { mode: gchecks::GMode::Outline };
@@ -42,7 +45,7 @@ static C16: c16::C16 = c16::C16;
 static C20: c20::C20 = c20::C20;
 
 fn registry() -> Vec<&'static dyn Check> {
-    vec![&C01, &C02, &C03, &C05, &C06, &C07, &C08, &C09, &C11, &C12, &C17, &C10, &C13, &C18, &C19, &C14, &C15, &C16, &C20]
+    vec![&C01, &C02, &C03, &C04, &C05, &C06, &C07, &C08, &C09, &C11, &C12, &C17, &C10, &C13, &C18, &C19, &C14, &C15, &C16, &C20]
 }
 
 fn usage() -> ! {
